@@ -23,15 +23,27 @@ theorem getElem?_mem_flatMap {pcs : List (List (Act ρ))} {w : Nat} {l : List (A
   List.mem_flatMap.mpr ⟨l, List.mem_of_getElem? h, hr⟩
 
 /-- one step: the log grows by at most one pending relation, and what remains pending was pending -/
-theorem step_log_pend (add : σ → ρ → σ) (enough : σ → Bool) (c : Cfg ρ σ) (w : Nat) (st : Bool) :
-    (∀ r ∈ pend (step add enough c w st), r ∈ pend c) ∧
-    ((step add enough c w st).log = c.log ∧ (step add enough c w st).store = c.store ∨
-     ∃ r, r ∈ pend c ∧ (step add enough c w st).log = c.log ++ [r] ∧
-       (step add enough c w st).store = add c.store r) := by
+theorem step_log_pend (add : σ → ρ → σ) (enough : σ → Bool) (c : Cfg ρ σ) (w : Nat) (st ab : Bool) :
+    (∀ r ∈ pend (step add enough c w st ab), r ∈ pend c) ∧
+    ((step add enough c w st ab).log = c.log ∧ (step add enough c w st ab).store = c.store ∨
+     ∃ r, r ∈ pend c ∧ (step add enough c w st ab).log = c.log ++ [r] ∧
+       (step add enough c w st ab).store = add c.store r) := by
   unfold step
   split
   · exact ⟨fun r h => h, Or.inl ⟨rfl, rfl⟩⟩
   · exact ⟨fun r h => h, Or.inl ⟨rfl, rfl⟩⟩
+  · rename_i rest hw
+    split
+    · refine ⟨?_, Or.inl ⟨rfl, rfl⟩⟩
+      intro r h
+      rcases mem_flatMap_set h with h | h
+      · exact h
+      · simp [pendingAdds] at h
+    · refine ⟨?_, Or.inl ⟨rfl, rfl⟩⟩
+      intro r h
+      rcases mem_flatMap_set h with h | h
+      · exact h
+      · exact getElem?_mem_flatMap hw (by simpa [pendingAdds] using h)
   · rename_i rest hw
     split
     · refine ⟨?_, Or.inl ⟨rfl, rfl⟩⟩
@@ -67,7 +79,7 @@ contains relations of the workers' programs, and any invariant that `add` preser
 relations holds — for EVERY schedule and every pattern of stale flag reads. -/
 theorem run_spec (add : σ → ρ → σ) (enough : σ → Bool) (Inv : σ → Prop) (Good : ρ → Prop)
     (hadd : ∀ s r, Inv s → Good r → Inv (add s r)) :
-    ∀ (sched : List (Nat × Bool)) (c : Cfg ρ σ) (s0 : σ),
+    ∀ (sched : List (Nat × Bool × Bool)) (c : Cfg ρ σ) (s0 : σ),
       c.store = c.log.foldl add s0 → Inv c.store → (∀ r ∈ c.log, Good r) → (∀ r ∈ pend c, Good r) →
       let c' := run add enough c sched
       c'.store = c'.log.foldl add s0 ∧ Inv c'.store ∧ (∀ r ∈ c'.log, Good r) ∧
@@ -79,12 +91,12 @@ theorem run_spec (add : σ → ρ → σ) (enough : σ → Bool) (Inv : σ → P
     exact ⟨h1, h2, h3, h4, fun r h => Or.inl h⟩
   | cons a sched ih =>
     intro c s0 h1 h2 h3 h4
-    obtain ⟨w, st⟩ := a
-    have hs := step_log_pend add enough c w st
+    obtain ⟨w, st, ab⟩ := a
+    have hs := step_log_pend add enough c w st ab
     obtain ⟨hp, hl⟩ := hs
     simp only [run]
     rcases hl with ⟨hlog, hstore⟩ | ⟨r, hr, hlog, hstore⟩
-    · have := ih (step add enough c w st) s0 (by rw [hstore, hlog]; exact h1) (by rw [hstore]; exact h2)
+    · have := ih (step add enough c w st ab) s0 (by rw [hstore, hlog]; exact h1) (by rw [hstore]; exact h2)
         (by rw [hlog]; exact h3) (fun r h => h4 r (hp r h))
       obtain ⟨a1, a2, a3, a4, a5⟩ := this
       refine ⟨a1, a2, a3, a4, ?_⟩
@@ -93,7 +105,7 @@ theorem run_spec (add : σ → ρ → σ) (enough : σ → Bool) (Inv : σ → P
       · rw [hlog] at h; exact Or.inl h
       · exact Or.inr (hp r h)
     · have hg : Good r := h4 r hr
-      have := ih (step add enough c w st) s0
+      have := ih (step add enough c w st ab) s0
         (by rw [hstore, hlog, List.foldl_append, ← h1]; rfl)
         (by rw [hstore]; exact hadd _ _ h2 hg)
         (by rw [hlog]; intro x hx; rcases List.mem_append.mp hx with hx | hx
@@ -123,18 +135,19 @@ theorem pendingAdds_compile (prog : List (List ρ)) : pendingAdds (compile prog)
     rw [this, pendingAdds, ih]
 
 /-- `done` is monotone: once set it stays set -/
-theorem step_done_mono (add : σ → ρ → σ) (enough : σ → Bool) (c : Cfg ρ σ) (w : Nat) (st : Bool)
-    (h : c.done = true) : (step add enough c w st).done = true := by
+theorem step_done_mono (add : σ → ρ → σ) (enough : σ → Bool) (c : Cfg ρ σ) (w : Nat) (st ab : Bool)
+    (h : c.done = true) : (step add enough c w st ab).done = true := by
   unfold step
   split <;> try exact h
   · split <;> exact h
+  · split <;> exact h
   · simp [h]
 
-theorem run_done_mono (add : σ → ρ → σ) (enough : σ → Bool) (sched : List (Nat × Bool)) :
+theorem run_done_mono (add : σ → ρ → σ) (enough : σ → Bool) (sched : List (Nat × Bool × Bool)) :
     ∀ c : Cfg ρ σ, c.done = true → (run add enough c sched).done = true := by
   induction sched with
   | nil => intro c h; exact h
-  | cons a sched ih => intro c h; exact ih _ (step_done_mono add enough c a.1 a.2 h)
+  | cons a sched ih => intro c h; exact ih _ (step_done_mono add enough c a.1 a.2.1 a.2.2 h)
 
 end Ymq.Sched
 
@@ -157,13 +170,21 @@ theorem sum_set_length : ∀ (pcs : List (List (Act ρ))) (w : Nat) (l v : List 
 def effective (c : Cfg ρ σ) (w : Nat) : Prop := ∃ a rest, c.pcs[w]? = some (a :: rest)
 
 /-- every step consumes at most the actions it performs; an effective step consumes at least one -/
-theorem step_remaining (add : σ → ρ → σ) (enough : σ → Bool) (c : Cfg ρ σ) (w : Nat) (st : Bool) :
-    remaining (step add enough c w st) ≤ remaining c ∧
-    (effective c w → remaining (step add enough c w st) < remaining c) := by
+theorem step_remaining (add : σ → ρ → σ) (enough : σ → Bool) (c : Cfg ρ σ) (w : Nat) (st ab : Bool) :
+    remaining (step add enough c w st ab) ≤ remaining c ∧
+    (effective c w → remaining (step add enough c w st ab) < remaining c) := by
   unfold step remaining effective
   split
   · rename_i h; exact ⟨le_refl _, fun ⟨a, rest, h'⟩ => by rw [h] at h'; cases h'⟩
   · rename_i h; exact ⟨le_refl _, fun ⟨a, rest, h'⟩ => by rw [h] at h'; cases h'⟩
+  · rename_i rest h
+    split
+    · have := sum_set_length c.pcs w _ [] h
+      simp only [setPc, List.length_cons, List.length_nil] at *
+      exact ⟨by omega, fun _ => by omega⟩
+    · have := sum_set_length c.pcs w _ rest h
+      simp only [setPc, List.length_cons] at *
+      exact ⟨by omega, fun _ => by omega⟩
   · rename_i rest h
     split
     · have := sum_set_length c.pcs w _ [] h
@@ -182,23 +203,23 @@ theorem step_remaining (add : σ → ρ → σ) (enough : σ → Bool) (c : Cfg 
     exact ⟨by omega, fun _ => by omega⟩
 
 /-- a schedule all of whose choices are effective -/
-def allEffective (add : σ → ρ → σ) (enough : σ → Bool) : Cfg ρ σ → List (Nat × Bool) → Prop
+def allEffective (add : σ → ρ → σ) (enough : σ → Bool) : Cfg ρ σ → List (Nat × Bool × Bool) → Prop
   | _, [] => True
-  | c, (w, st) :: sched => effective c w ∧ allEffective add enough (step add enough c w st) sched
+  | c, (w, st, ab) :: sched => effective c w ∧ allEffective add enough (step add enough c w st ab) sched
 
 /-- bounded work: no schedule can make the workers perform more than `remaining` actions -/
 theorem effective_steps_bounded (add : σ → ρ → σ) (enough : σ → Bool) :
-    ∀ (sched : List (Nat × Bool)) (c : Cfg ρ σ), allEffective add enough c sched →
+    ∀ (sched : List (Nat × Bool × Bool)) (c : Cfg ρ σ), allEffective add enough c sched →
       sched.length + remaining (run add enough c sched) ≤ remaining c := by
   intro sched
   induction sched with
   | nil => intro c _; simp [run]
   | cons a sched ih =>
     intro c h
-    obtain ⟨w, st⟩ := a
+    obtain ⟨w, st, ab⟩ := a
     obtain ⟨h1, h2⟩ := h
     have := ih _ h2
-    have hs := (step_remaining add enough c w st).2 h1
+    have hs := (step_remaining add enough c w st ab).2 h1
     simp only [run, List.length_cons]
     omega
 
@@ -213,5 +234,99 @@ theorem progress (c : Cfg ρ σ) (h : finished c = false) : ∃ w, effective c w
   cases hcw : c.pcs[w] with
   | nil => simp [hcw] at hne
   | cons a rest => exact ⟨a, rest, by rw [List.getElem?_eq_getElem hw, hcw]⟩
+
+end Ymq.Sched
+
+namespace Ymq.Sched
+variable {ρ σ : Type}
+
+theorem sum_set_untilPoll : ∀ (pcs : List (List (Act ρ))) (w : Nat) (l v : List (Act ρ)),
+    pcs[w]? = some l →
+    ((pcs.set w v).map untilPoll).sum + untilPoll l = (pcs.map untilPoll).sum + untilPoll v
+  | [], w, l, v, h => by simp at h
+  | p :: ps, 0, l, v, h => by
+    simp at h; subst h
+    simp only [List.set_cons_zero, List.map_cons, List.sum_cons]; omega
+  | p :: ps, w + 1, l, v, h => by
+    simp at h
+    have := sum_set_untilPoll ps w l v h
+    simp only [List.set_cons_succ, List.map_cons, List.sum_cons]; omega
+
+/-- while the abort predicate answers `true`, every effective step consumes the abort budget:
+the remainder of the acting worker's current work unit shrinks, and a poll ends the worker -/
+theorem step_abortBudget (add : σ → ρ → σ) (enough : σ → Bool) (c : Cfg ρ σ) (w : Nat) (st : Bool)
+    (h : effective c w) :
+    abortBudget (step add enough c w st true) < abortBudget c := by
+  obtain ⟨a, rest, ha⟩ := h
+  unfold step abortBudget
+  rw [ha]
+  cases a with
+  | poll =>
+    simp only [Bool.true_or, if_true]
+    have := sum_set_untilPoll c.pcs w _ [] ha
+    simp only [setPc, untilPoll] at *
+    omega
+  | check =>
+    simp only
+    split
+    · have := sum_set_untilPoll c.pcs w _ [] ha
+      simp only [setPc, untilPoll] at *
+      omega
+    · have := sum_set_untilPoll c.pcs w _ rest ha
+      simp only [setPc, untilPoll] at *
+      omega
+  | add r =>
+    have := sum_set_untilPoll c.pcs w _ rest ha
+    simp only [setPc, untilPoll] at *
+    omega
+  | publish =>
+    have := sum_set_untilPoll c.pcs w _ rest ha
+    simp only [setPc, untilPoll] at *
+    omega
+
+/-- a schedule along which the abort predicate answers `true` at every step -/
+def allAbort : List (Nat × Bool × Bool) → Prop
+  | [] => True
+  | (_, _, ab) :: sched => ab = true ∧ allAbort sched
+
+theorem abort_steps_bounded (add : σ → ρ → σ) (enough : σ → Bool) :
+    ∀ (sched : List (Nat × Bool × Bool)) (c : Cfg ρ σ), allEffective add enough c sched → allAbort sched →
+      sched.length + abortBudget (run add enough c sched) ≤ abortBudget c := by
+  intro sched
+  induction sched with
+  | nil => intro c _ _; simp [run]
+  | cons a sched ih =>
+    intro c h hab
+    obtain ⟨w, st, ab⟩ := a
+    obtain ⟨h1, h2⟩ := h
+    obtain ⟨hab1, hab2⟩ := hab
+    subst hab1
+    have := ih _ h2 hab2
+    have hs := step_abortBudget add enough c w st h1
+    simp only [run, List.length_cons]
+    omega
+
+theorem untilPoll_le_length : ∀ l : List (Act ρ), untilPoll l ≤ l.length
+  | [] => by simp [untilPoll]
+  | Act.poll :: rest => by simp [untilPoll]
+  | Act.check :: rest => by have := untilPoll_le_length rest; simp [untilPoll]; omega
+  | Act.add _ :: rest => by have := untilPoll_le_length rest; simp [untilPoll]; omega
+  | Act.publish :: rest => by have := untilPoll_le_length rest; simp [untilPoll]; omega
+
+/-- before any work has started every worker is at a poll: the abort budget of the initial
+configuration is one action per worker with a non-empty work list -/
+theorem abortBudget_init_le (s0 : σ) (progs : List (List (List ρ))) :
+    abortBudget (init s0 progs) ≤ progs.length := by
+  unfold abortBudget init
+  show ((progs.map compile).map untilPoll).sum ≤ progs.length
+  induction progs with
+  | nil => simp
+  | cons p ps ih =>
+    simp only [List.map_cons, List.sum_cons, List.length_cons]
+    have : untilPoll (compile p) ≤ 1 := by
+      cases p with
+      | nil => simp [compile, untilPoll]
+      | cons u us => simp [compile, untilPoll]
+    omega
 
 end Ymq.Sched
